@@ -11,10 +11,16 @@
      Structural(k, at, n)  truncate / delete / duplicate / zero / 0xFF / bit-flip n bytes at at/64 of the file
      Keyword(a, b, occ)    the occ-th structural keyword a is replaced by b
      Random(n, len, hdr)   len pseudo-random bytes (seeded by n), optionally behind a %PDF header
+     Ref(site, to)         the site-th indirect reference of the base retargeted: to the object that holds it, or to the first
+                           catalog / page-tree node / page / font / stream of the file (cycles and objects of the wrong kind)
      Bomb(name)            a file of a few KB that declares much: 100 000 unbalanced q, a /Kids array naming one page
                            200 000 times under /Count 2 000 000 000, an object stream announcing 10^8 members, a TJ array
                            of a million elements, 48 MB of content behind 48 KB of zlib, a cross-reference stream of two
-                           million free entries behind 10 KB
+                           million free entries behind 10 KB; or whose structure asks for unbounded work: a composite
+                           font that is its own descendant, a page-tree node that is its own kid, a form XObject that paints
+                           itself ten times, 200 000 closing brackets in a marked-content property list, 400 000 usecmap operators,
+                           a /Length of 2^62 on a dictionary that does not parse, CCITT geometry of 4 GB over no data, a 100 KB
+                           ToUnicode destination shown a million times, one 10 MB content stream named 100 000 times
      Run(place, filler, n) a small valid file with a run of n copies of a token every reader skips (a comment, a blank, a
                            line end, a NUL or form feed, a stray delimiter, a control or Latin-1 byte tolerated in lenient modes) at one syntactic place: between an object header and its value, inside a
                            dictionary or an array, before endobj, between objects, in the cross-reference table, around
@@ -52,7 +58,11 @@ ContentTails == << "/Span#4", "/A#", "/A#4G", "(abc", "(a\\", "(\\1", "<4", "<",
 \* what may stand where an object's body should be: references that lead nowhere or in circles, nesting beyond any stack, scalars
 BodyVals == << "self", "next", "deep", "deepdict", "null", "[ ]", "<< >>", "42", "(s)", "/N", "true", "99 0 R", "[ 1 0 R 1 0 R ]", "<< /Kids 2 0 R >>" >>
 \* small files that ask for much (built by the harness): counts, sizes and nesting far beyond what the bytes can back
-BombNames == << "deep_q", "wide_kids", "objstm_n", "huge_tj", "flate_content", "xref_entries" >>
+BombNames == << "font_ring", "font_ring2", "pages_ring", "bdc_brackets", "bdc_nested", "form_ring", "usecmap_run", "length_recon", "ccitt_columns", "ccitt_rows",
+                "tounicode_expansion", "contents_repeat",
+                "deep_q", "wide_kids", "objstm_n", "huge_tj", "flate_content", "xref_entries" >>
+\* what an indirect reference may be turned to: the object that holds it, or the first object of a kind
+RefTargets == << "self", "catalog", "pages", "page", "font", "stream" >>
 RunPlaces == << "before_header", "content", "dict_inside", "dict_value", "array_inside", "before_stream_kw", "between_objs", "obj_before_value", "before_endobj",
                "xref_after_kw", "xref_between_entries", "before_trailer_kw", "before_trailer_dict", "after_startxref_kw", "before_eof", "after_eof" >>
 RunFillers == << "comment", "commentcr", "space", "nl", "crlf", "nul", "ff", "semicolon", "rparen", "lbrace", "rbrace", "latin1", "bell", "c1" >>
@@ -66,6 +76,7 @@ WellFormed(b, f) ==
     [] f.k = "keyword" -> \E i \in 1..Len(Keywords) : Keywords[i] = <<f.from, f.to>>
     [] f.k = "random" -> f.len \in 0..4096
     [] f.k = "bomb" -> InSeq(f.name, BombNames)
+    [] f.k = "ref" -> b.nrefs > 0 /\ f.site \in 0..(b.nrefs - 1) /\ InSeq(f.to, RefTargets)
     [] f.k = "tail" -> b.ntails > 0 /\ f.stream \in 0..(b.ntails - 1) /\ InSeq(f.val, ContentTails)
     [] f.k = "run" -> InSeq(f.place, RunPlaces) /\ InSeq(f.filler, RunFillers) /\ f.n \in RunLengths
     [] f.k = "xrefcut" -> f.lines \in 0..12 /\ f.pad \in {"none", "blank", "comment"}
